@@ -10,6 +10,22 @@ N = 'self.n()'
 UNIT = {
  'name': 'objstm',
  'doc': 'Object streams: header loop (N pairs, in order), member slicing by /First + offset, range check of Backend::read',
+ # BOUNDED native stand-in (vlib/native.py): the real crate, public API only. Decides restructurings of the compressed-object path that the
+ # Verus part cannot read (a NEW helper without contract leaves it UNDECIDED). Reported under bounded_checks, never counted as proved.
+ 'native': {'tests': [
+    {'name': 'same_value_plain_or_compressed', 'code': 'native_storage_independence.rs', 'place': 'pdf/tests/verif_c11_storage.rs',
+     'fn': 'Storage::resolve_ref', 'props': ['C11'], 'tier': 'quick', 'timeout': 900,
+     'bound': 'pairs of hand-generated files with the SAME 1..6 objects out of 19 values (integers, reals, names with #xx, literal strings with '
+              'escapes / nested parentheses / EOL, hex strings, arrays, nested dictionaries, references, null, true, false; every value at every '
+              'position: lists V[start + j*stride], stride 1 and 7): FILE A ordinary indirect objects + classic table, FILE B inside object stream 3 + '
+              'xref stream with type-2 entries (/First and offsets computed by the test, /Extends absent) in 10 layouts (members separated by '
+              'blanks / newlines / CR LF / nothing where the syntax allows, with and without trailing white-space, padded header, ascending / '
+              'descending member order, unfiltered / ASCIIHexDecode as name / as array) x {strict, tolerant} x {uncached, cached (fresh document '
+              'per order)} x orders of access (all permutations for n <= 4, rotations + every 6th / 24th permutation for n = 5 / 6, every member '
+              'twice in a row); + a stream whose /Length is direct or a reference to the member `5` (plain in A, compressed in B); 1.49 million reads',
+     'contract': 'both files load; resolve(k 0 R) is Ok in both with equal Primitives, equal to the hand-written denoted value; the stream data is '
+                 'HELLO in both; nothing panics'},
+ ]},
  'items': {
   'type ObjNr': {'kind': 'decl', 'file': 'pdf/src/object/mod.rs', 'header': r'^pub type ObjNr = u64;$'},
   'struct Lexer': {'kind': 'decl', 'file': L, 'header': r"^pub struct Lexer<'a>$",
